@@ -3,6 +3,7 @@ package nat
 import (
 	"context"
 	"encoding/binary"
+	"errors"
 	"fmt"
 	"net"
 	"os"
@@ -552,15 +553,18 @@ func (m *Manager) DeallocateNAT(privateIP net.IP) error {
 		m.allocationMu.Unlock()
 		return nil // Not allocated
 	}
-	delete(m.allocations, privKey)
-	m.allocationMu.Unlock()
 
-	// Remove from eBPF map
+	// Remove from eBPF map first, while the allocation is still tracked: if the datapath entry
+	// cannot be removed the block must not be handed to another subscriber (subscriber_nat would
+	// carry the same ports twice), so the release is refused and nothing changes.
 	if m.subscriberNAT != nil {
-		if err := m.subscriberNAT.Delete(&privKey); err != nil {
-			m.logger.Warn("Failed to delete subscriber NAT entry", zap.Error(err))
+		if err := m.subscriberNAT.Delete(&privKey); err != nil && !errors.Is(err, ebpf.ErrKeyNotExist) {
+			m.allocationMu.Unlock()
+			return fmt.Errorf("failed to delete eBPF map entry: %w", err)
 		}
 	}
+	delete(m.allocations, privKey)
+	m.allocationMu.Unlock()
 
 	// Update pool count
 	m.poolMu.Lock()
